@@ -10,6 +10,8 @@ from tiv.mutate import M
 from tiv.sem import origin
 
 RULES = {
+    "MEMO": "memo safety (shared, rules/common.py): a memoised function in this property's files (or called from them) is a function of its "
+            "arguments only (no terminal/ambient/receiver state outside the key) and no caller mutates its result in place",
     "L1": "lock_tty_wrapper is one `with` whose items are TWO loads of the module-global `_tty_lock` (not a value captured "
           "at decoration time) around `return func(*args, **kwargs)`; every other `with` on `_tty_lock`/`_cell_size_lock` in "
           "utils.py outside the Process wrappers uses the same two-item form (hand-over of a swapped lock)",
@@ -239,6 +241,9 @@ def run(ck, m):
             ck.ob("L5", st, "lock_tty" in _decorators(st),
                   f"UrwidImageScreen.{st.name} performs terminal I/O but is not decorated with @lock_tty", stmt=f"UrwidImageScreen.{st.name}")
     ck.expect(n5 >= 4, f"expected >= 4 I/O overrides in UrwidImageScreen, found {n5}")
+
+    from rules.common import rule_memo_safety
+    rule_memo_safety(ck, m, "MEMO", "C14")
 
 
 def _anc(n):
